@@ -376,6 +376,19 @@ make_parent(char *path)
 	if (sep == NULL || sep == path)
 		return;
 	*sep = '\0';
+	/*
+	 * Vet the ancestors first, top down: the lstat() below sees through
+	 * a symlink in every component but the last one, so an existing
+	 * "dir" reached through a symlink would be accepted.
+	 */
+	make_parent(path);
+	if (d_arg != NULL && (size_t)(sep - path) <= strlen(d_arg)) {
+		/* Part of the -d argument: the user's choice, not the archive's. */
+		if (stat(path, &sb) != 0)
+			mkdir(path, 0755);
+		*sep = '/';
+		return;
+	}
 	if (lstat(path, &sb) == 0) {
 		if (S_ISDIR(sb.st_mode)) {
 			*sep = '/';
@@ -383,7 +396,6 @@ make_parent(char *path)
 		}
 		unlink(path);
 	}
-	make_parent(path);
 	mkdir(path, 0755);
 	*sep = '/';
 
